@@ -1,26 +1,8 @@
-/- GENERATED by /verif/tools/gen_steps.py from /repo/src (tx.rs, db.rs). Do not edit. -/
+/- GENERATION FAILED -/
 import Jamm.Model.Steps
-
+import Jamm.Model.Layout
+import Jamm.Model.Params
 namespace Jamm.Gen
-
-/-- `Tx::new`, in source order (the two lock kinds are one step; the two release branches one step) -/
-def beginSteps : List Jamm.BeginStep := [.lockTx, .cloneFreelist, .readMeta, .lockReaders, .releaseOrRegister, .unlockReaders, .cloneMap]
-
-/-- `TxInner::write_data`, in source order -/
-def commitSteps : List Jamm.CommitStep := [.freeOldFreelist, .allocFreelist, .grow, .writeData, .sync, .strictCheck, .beginHeaderAttempt, .writeMeta, .flush, .sync, .publishIfVisible]
-
-/-- `Tx::commit` -/
-def commitOuter : List Jamm.CommitOuterStep := [.guardWritable, .rebalance, .spill, .writeDataCall]
-
-/-- `DBInner::resize` -/
-def resizeSteps : List Jamm.ResizeStep := [.fallocate, .lockMapWrite, .lockData, .mmap, .storeMap]
-
-/-- `Drop for TxInner` (readers only; the transaction lock is released when the fields drop) -/
-def dropSteps : List Jamm.DropStep := [.lockReaders, .findReader, .removeReader]
-
-/-- `OpenOptions::open` / `init_file` / `DBInner::open` -/
-def openOuter : List Jamm.OpenStep := [.existsCheck, .initFile, .openFile, .dbOpen]
-def initSteps : List Jamm.InitStep := [.createNew, .fallocate, .writeInit, .flush, .sync]
-def openInner : List Jamm.OpenInnerStep := [.flock, .mmap, .readMeta, .loadFreelist]
-
+theorem translator_failed : False := by
+  fail "translator: TxInner::write_data: expected exactly one `writeData`, found 0"
 end Jamm.Gen
